@@ -408,6 +408,12 @@ pub fn gen_c14(ctx: &Ctx, rng: &mut Rng, out: &mut Vec<String>) {
             let c = if k.starts_with("d-") { *rng.pick(&[2.0f64, 0.5, 3.0, 0.1, 1000.0, 7.25, 1e-3, 1e-18, 1e-24, 1e100]) }
                     else { *rng.pick(&[2.0f64, 0.5, 3.0, 0.1, 1000.0, 7.25, 1e-3, 1e-18, 1e-24, 1e-100, 1e-290, 1e100, 1e280, 8.673617379884035e-19]) };
             out.push(format!("st.rel\tscale\t{k}\t{sh}\t{bs}\t{:016x}", c.to_bits()));
+            // … and a power of two that lifts the total to just below the top of the binary64 range: the total, S, pi and theta of the scaled
+            // spectrum are all finite (each is at most the total) — an evaluation that sums before it normalises overflows here
+            if i % 3 == 0 && ["sum", "s", "pi", "theta"].contains(k) {
+                let tot: f64 = data.iter().sum();
+                if tot > 0.0 { let c = 2f64.powi(1023 - tot.log2().ceil() as i32); out.push(format!("st.rel\tscale\t{k}\t{sh}\t{bs}\t{:016x}", c.to_bits())); }
+            }
             // swapping the two populations
             if d == 2 && ["f2", "fst", "pi-xy", "king", "r0", "r1"].contains(k) { out.push(format!("st.rel\tswap\t{k}\t{sh}\t{bs}\t-")); }
         }
